@@ -212,9 +212,14 @@ pub trait Prop: Sync {
     fn has_exhaustive(&self) -> bool {
         false
     }
-    /// Probes for open known findings: returns (sig, still_fails, description).
-    fn known_probes(&self, _ctx: &mut Ctx) -> Vec<(String, bool, String)> {
-        Vec::new()
+    /// Render the case for a choice vector without checking it (used for crashing cases).
+    fn render(&self, _ctx: &mut Ctx, _ch: &mut Choices) -> String {
+        "<render not implemented>".into()
+    }
+    /// Probe for one open known finding, run in its own process (it may crash, which counts as
+    /// "still fails"): returns (still_fails, what fails).
+    fn known_probe(&self, _ctx: &mut Ctx, _sig: &str) -> Option<(bool, String)> {
+        None
     }
     /// Per-worker wall-clock watchdog.
     fn timeout(&self, tier: Tier) -> Duration {
@@ -866,21 +871,25 @@ pub fn check_main(prop: &'static dyn Prop, tier: Tier, seed: u64) -> i32 {
         }
     }
 
-    // 2. Known-finding probes (in a child, they may crash).
-    // Run through `svf probes` child to isolate.
-    if !open.is_empty() {
+    // 2. Known-finding probes: one child process per open signature (a probe may crash).
+    for sig in &open {
         let exe = std::env::current_exe().unwrap();
-        let out = Command::new(exe).arg("probes").arg(id).arg("--tier").arg(tier.name()).arg("--seed").arg(seed.to_string()).output();
+        let out = Command::new(exe).arg("probe").arg(id).arg(sig).arg("--tier").arg(tier.name()).arg("--seed").arg(seed.to_string()).output();
         if let Ok(out) = out {
-            for line in String::from_utf8_lossy(&out.stdout).lines() {
+            let stdout = String::from_utf8_lossy(&out.stdout).into_owned();
+            let mut seen = false;
+            for line in stdout.lines() {
                 if let Some(j) = line.strip_prefix("PROBE ") {
                     if let Ok(j) = serde_json::from_str::<J>(j) {
-                        let sig = j["sig"].as_str().unwrap_or("").to_owned();
-                        if j["fails"].as_bool().unwrap_or(false) && open.contains(&sig) {
+                        seen = true;
+                        if j["fails"].as_bool().unwrap_or(false) {
                             known_lines.entry(sig.clone()).or_insert((0, j["desc"].as_str().unwrap_or("").to_owned())).0 += 1;
                         }
                     }
                 }
+            }
+            if !seen && !out.status.success() && stdout.contains("PROBE-START") {
+                known_lines.entry(sig.clone()).or_insert((0, format!("{} [probe process died: {}]", known.desc(id, sig), out.status))).0 += 1;
             }
         }
     }
@@ -969,7 +978,12 @@ pub fn check_main(prop: &'static dyn Prop, tier: Tier, seed: u64) -> i32 {
                                 OneOutcome::Crash(m2) => m2,
                                 _ => m,
                             };
-                            let p = write_replay(id, seed, tier, &choices_to_string(&small), "<process died while checking this case; re-run with `svf render`>",
+                            let rendered = {
+                                let mut c = make_ctx(prop, tier, seed, 0, 1, false);
+                                prop.render(&mut c, &mut Choices::new(&small))
+                            };
+                            eprintln!("[{id}] crashing case: {}", truncate(&rendered, 600));
+                            let p = write_replay(id, seed, tier, &choices_to_string(&small), &rendered,
                                 "crash", &format!("process died: {m2}"), true);
                             violations.push(p);
                         }
@@ -1071,14 +1085,27 @@ pub fn check_main(prop: &'static dyn Prop, tier: Tier, seed: u64) -> i32 {
     0
 }
 
-pub fn probes_main(prop: &'static dyn Prop, tier: Tier, seed: u64) -> i32 {
+pub fn render_main(prop: &'static dyn Prop, tier: Tier, seed: u64, path: &str) -> i32 {
+    let s = std::fs::read_to_string(path).unwrap_or_default();
+    let s = if let Ok(j) = serde_json::from_str::<J>(&s) { j["choices"].as_str().unwrap_or("").to_owned() } else { s };
+    let v = choices_from_string(&s);
+    let mut ctx = make_ctx(prop, tier, seed, 0, 1, false);
+    println!("{}", prop.render(&mut ctx, &mut Choices::new(&v)));
+    0
+}
+
+pub fn probe_main(prop: &'static dyn Prop, tier: Tier, seed: u64, sig: String) -> i32 {
     install_quiet_panic_hook();
     let h = std::thread::Builder::new()
         .stack_size(WORKER_STACK)
         .spawn(move || {
             let mut ctx = make_ctx(prop, tier, seed, 0, 1, false);
-            for (sig, fails, desc) in prop.known_probes(&mut ctx) {
+            println!("PROBE-START");
+            let _ = std::io::stdout().flush();
+            if let Some((fails, desc)) = prop.known_probe(&mut ctx, &sig) {
                 println!("PROBE {}", json!({"sig": sig, "fails": fails, "desc": desc}));
+            } else {
+                println!("PROBE-NONE");
             }
         })
         .unwrap();
